@@ -8,7 +8,7 @@ ONLY="$@"
 sel() { if [ -z "$ONLY" ]; then ls -d $OUT/C*/; else for p in $ONLY; do echo $OUT/$p/; done; fi; }
 [ -z "$ONLY" ] && { : > /tmp/confirm_results_$TAG.txt; : > /tmp/detect_matrix_$TAG.txt; }
 cd /tmp
-(for d in $(sel); do p=$(basename $d); for x in a b c; do [ -f $d/$x/patch.diff ] && [ -f $d/$x/demo.py ] && echo "$p-$TAG$x $d/$x/patch.diff $d/$x/demo.py"; done; done) | xargs -P 8 -L 1 /verif/tools_confirm_seed.sh >> /tmp/confirm_results_$TAG.txt 2>&1
+(for d in $(sel); do p=$(basename $d); for x in a b c; do [ -f $d/$x/patch.diff ] && [ -f $d/$x/demo.py ] && echo "$p-$TAG$x $d/$x/patch.diff $d/$x/demo.py"; done; done) | xargs -P ${CONFIRM_JOBS:-8} -L 1 /verif/tools_confirm_seed.sh >> /tmp/confirm_results_$TAG.txt 2>&1
 (for d in $(sel); do p=$(basename $d); for x in a b c; do [ -f $d/$x/patch.diff ] && echo "$p-$TAG$x $d/$x/patch.diff"; done; done) | xargs -P 6 -L 1 /verif/tools_detect_matrix.sh >> /tmp/detect_matrix_$TAG.txt 2>&1
 /venv/bin/python - $OUT $TAG <<'PY'
 import json, os, re, shutil, sys
